@@ -23,9 +23,20 @@ def dist(a, b):
     return math.hypot(a[0] - b[0], a[1] - b[1])
 
 
-def cmp_le(value, limit, tau=TAU):
+def _f32_exact(x):
+    import struct
+
+    try:
+        return struct.unpack("f", struct.pack("f", x))[0] == x
+    except (OverflowError, struct.error):
+        return False
+
+
+def cmp_le(value, limit, tau=TAU, exact_ok=False):
     """'ok' | 'ambiguous' | 'violated' for the constraint value <= limit (float geometry)."""
     band = tau * max(1.0, abs(limit)) if math.isfinite(limit) else 0.0
+    if exact_ok and value == limit and _f32_exact(value):
+        return "ok"  # equality in exact (dyadic) arithmetic: the constraint is met, and must be treated as met
     if value > limit + band:
         return "violated"
     if value > limit - band:
@@ -182,7 +193,7 @@ class CVRPTW(CVRP):
             seq = seq + [0]  # the vehicle has to come home
         for a in seq:
             arr = t + dist(locs[cur], locs[a])
-            st = cmp_le(arr, tw[a][1])
+            st = cmp_le(arr, tw[a][1], exact_ok=True)
             if st != "ok":
                 out.append(("time_window" if a != 0 else "depot_deadline", st, f"arrival {arr} at node {a} after window end {tw[a][1]}"))
             t = max(arr, tw[a][0]) + dur[a]
@@ -465,7 +476,7 @@ class MTVRP:
                 arr = t + dist(locs[cur], locs[a]) / inst["speed"]
                 end = inst["tw"][a][1]
                 if math.isfinite(end):
-                    st = cmp_le(arr, end)
+                    st = cmp_le(arr, end, exact_ok=True)
                     if st != "ok":
                         out.append(("time_window" if a != 0 else "depot_deadline", st, f"route {r}: arrival {arr} at {a} after {end}"))
                 t = max(arr, inst["tw"][a][0]) + inst["service"][a]
